@@ -102,6 +102,9 @@ def numeric_oracle(args):
                 ops.append(dense.op_on(n, {q: dense.PAULI[p[0]], q + 1: dense.PAULI[p[1]]}))
             except Exception:  # noqa: BLE001
                 pass
+    # the listing order of the observables is the user's: shuffle it (one- and two-site observables on the same site in either order)
+    perm = np.random.default_rng(len(gates) * 7919 + n).permutation(len(obs))
+    obs, ops = [obs[i] for i in perm], [ops[i] for i in perm]
     par = StrongSimParams(obs, num_traj=args.get("num_traj", 1), get_state=True, threshold=1e-13, max_bond_dim=64, show_progress=False)
     with common.time_limit(240):
         simulator.run(mps, qc, par, None, parallel=False)
